@@ -37,6 +37,7 @@ from snaxc.accelerators.streamers.streamers import (
     StreamerConfiguration,
     StreamerFlag,
     StreamerOpts,
+    StreamerSystemType,
     StreamerType,
 )
 from snaxc.util.memref_descriptor import LLVMMemrefDescriptor
@@ -174,6 +175,12 @@ class StreamerConfigurationAttr(Data[StreamerConfiguration]):
         with parser.in_angle_brackets():
             streamers: Sequence[Streamer] = []
 
+            # optional system type, regular if not specified
+            system_type = StreamerSystemType.Regular
+            if parser.parse_optional_keyword(StreamerSystemType.DmaExt.value):
+                parser.parse_punctuation(":")
+                system_type = StreamerSystemType.DmaExt
+
             while True:
                 # Determine streamer type
                 streamer_type: StreamerType = parser.parse_str_enum(StreamerType)
@@ -210,7 +217,7 @@ class StreamerConfigurationAttr(Data[StreamerConfiguration]):
                 if not parser.parse_optional_punctuation(","):
                     break
 
-            return StreamerConfiguration(streamers)
+            return StreamerConfiguration(streamers, system_type)
 
     @classmethod
     def parse_streamer_opt(cls, parser: AttrParser) -> StreamerOpts:
@@ -233,7 +240,9 @@ class StreamerConfigurationAttr(Data[StreamerConfiguration]):
             + f"spat={'-'.join(str(d) for d in streamer.spatial_dims)}]"
             for streamer in self.data.streamers
         ]
-        printer.print_string(f"<{', '.join(streamer_strings)}>")
+        system_type = self.data.system_type()
+        prefix = f"{system_type.value}: " if system_type != StreamerSystemType.Regular else ""
+        printer.print_string(f"<{prefix}{', '.join(streamer_strings)}>")
 
 
 Snax = Dialect(
